@@ -353,3 +353,51 @@ def write_evidence(pid, tier, seed, coverage, wall, violations, assumptions):
               assumptions=assumptions, wall_s=round(wall, 2), violations=violations)
     with open(os.path.join(d, pid + '.json'), 'w') as f:
         json.dump(ev, f, indent=1, ensure_ascii=False)
+
+
+# ------------------------------------------------------------------ change-aware budget
+
+FINGERPRINT = os.path.join(VERIF, 'fingerprint.json')
+
+
+def source_fingerprint():
+    """sha256 of every file under kiki/src of the working tree (the hooks file included)."""
+    import hashlib
+    out = {}
+    root = os.path.join(REPO, 'kiki', 'src')
+    for d, ds, fs in os.walk(root):
+        ds.sort()
+        for f in sorted(fs):
+            p = os.path.join(d, f)
+            rel = os.path.relpath(p, REPO)
+            try:
+                out[rel] = hashlib.sha256(open(p, 'rb').read()).hexdigest()
+            except OSError:
+                pass
+    return out
+
+
+def changed_anchor_files(pid):
+    """Files under kiki/src that differ from the recorded fingerprint and matter to property pid: its anchor files
+    (properties.jsonl), or every property when the changed file is anchored nowhere."""
+    try:
+        base = json.load(open(FINGERPRINT))
+    except Exception:
+        return []
+    now = source_fingerprint()
+    changed = sorted(k for k in set(base) | set(now) if base.get(k) != now.get(k))
+    if not changed:
+        return []
+    anchors, mine = set(), set()
+    try:
+        for l in open(os.path.join(VERIF, 'properties.jsonl')):
+            p = json.loads(l)
+            fs = set(p.get('anchors', {}).get('files', []))
+            anchors |= fs
+            if p['id'] == pid:
+                mine = fs
+    except Exception:
+        return changed
+    # the pipeline stages feed one another: a change in an earlier stage matters to the properties of the later ones
+    hit = [c for c in changed if c in mine or c not in anchors]
+    return hit or ([c for c in changed] if pid in ('C07', 'C14') else [])
